@@ -1,12 +1,13 @@
 """C04 - see properties.jsonl; DESIGN.md section 5."""
 from ._generic import run_property
 
-EXPLANATION = 'Mixed. P: statistics.null_count written by write_column equals the number of missing cells of the whole column (sum over pages, loop invariant global_num_nulls == N) for data-page v1 and v2, from the real source; min/max values and the reader side are NOT under contract. B (labelled bounded): min/max/null_count decoded from the raw footer and through ParquetFile.statistics / sorted_partitioned_columns compared with values recomputed from the data under the Parquet ordering.'
+EXPLANATION = 'Mixed. P: statistics.null_count written by write_column equals the number of missing cells of the whole column (sum over pages, loop invariant global_num_nulls == N) for data-page v1 and v2, from the real source; api.sorted_partitioned_columns and api.statistics(<ColumnChunk>) from the real source: the entry of a listed column is the statistics of the selected row groups, listed <=> None-free, non-empty, sorted and strictly increasing across ALL row-group pairs, max/min taken from max/max_value resp. min/min_value never crossed, null_count / distinct_count copied; written min/max VALUES are not under contract. B (labelled bounded): min/max/null_count decoded from the raw footer and through ParquetFile.statistics / sorted_partitioned_columns compared with values recomputed from the data under the Parquet ordering.'
 
 
 def p_parts():
     from ._bookkeeping import p_bookkeeping
-    return [p_bookkeeping]
+    from ._sorted import p_sorted
+    return [p_bookkeeping, p_sorted]
 
 
 def run(ctx):
